@@ -15,7 +15,7 @@ from math import comb
 FA_LOG2 = 232  # every single check: FA < 2^-FA_LOG2; a batch of up to 2^32 checks stays below the property's 2^-200
 QMAX = 8        # call-context groups: draws of one call site taken every q-th repetition, q = 1..QMAX
 
-W_BLOCKS, W_HIGH, W_NUMVARS, W_NUMBITS, W_PANIC = 1, 2, 4, 8, 16
+W_BLOCKS, W_HIGH, W_NUMVARS, W_NUMBITS, W_PANIC, W_CHANGED = 1, 2, 4, 8, 16, 32
 WARN_NAMES = {W_BLOCKS: "block_count", W_HIGH: "bit_beyond_2^n", W_NUMVARS: "num_vars", W_NUMBITS: "num_bits"}
 
 
@@ -106,6 +106,15 @@ def check_run(run, shrink_mode=False):
             out.append(_viol("panicked", f"{tname(d['typ'])} random() for n={d['n']} panicked in thread {d['t']}",
                              f"{d['typ']}{d['n']}", [d["t"]], d["n"], d["typ"]))
     ok = [d for d in draws if not d["warn"] & W_PANIC]
+    # 1b. a returned table stays what it was: the harness keeps every returned Lut alive, hands it to the
+    # main thread and re-reads it after the run (aliasing with generator-internal storage shows up here only)
+    changed = [d for d in ok if d["warn"] & W_CHANGED]
+    if changed:
+        d = changed[0]
+        out.append(_viol("aliased", f"{len(changed)} of {len(ok)} tables returned by {tname(d['typ'])} random() and kept by the caller no longer hold the value they had when returned "
+                         f"(first: thread {d['t']}, n={d['n']}, draw #{d.get('rep', 0)})", f"{d['typ']}{d['n']}:kept", [d["t"]], d["n"], d["typ"]))
+    for d in ok:
+        d["warn"] &= ~W_CHANGED
     # 2. well-formed (in-run mask, re-checked post hoc from the logged blocks)
     seen = set()
     for d in ok:
